@@ -28,7 +28,7 @@ T = {
          'translator + K2/K3 correspondence, precedence oracle'),
  'C08': ('Coq theorems: an abandoned alternative restores position, token, diagnostics, error state and the abstract tree state exactly, for every program/input/oracle/fuel; callback balance and value semantics by K3 correspondence + reference interpreter',
          'translator + correspondence, reference interpreter'),
- 'C09': ('Coq theorem: first sets of the transcribed calc_first are exactly the derivation-defined sets (soundness unconditional, completeness from a closure certificate evaluated per grammar); follow/predict by K2 correspondence + textbook oracle on an independent BNF',
+ 'C09': ('Coq theorems: the first and follow sets returned by the transcribed fixpoint loops are exactly the derivation-defined / textbook-rule sets for every grammar with unique node ids (first: also every node productive), with no hypothesis on the result (closure of the computed maps is proved); predict = first extended by follow; tie by K2 correspondence + textbook oracle on an independent BNF',
          'Rocq model + K2 correspondence, textbook oracle'),
  'C10': ('Coq theorem: E011/E013/E014 are reported exactly where the definition of an LL(1) conflict holds (all maps, all expressions outside operator branches); E012 and the tie by K2 correspondence + definitional oracle with textbook sets',
          'Rocq model + K2 correspondence, definitional oracle'),
@@ -38,7 +38,7 @@ T = {
          'exhaustive/random exploration of the real front end'),
  'C13': ('exploration: generator AST vs typed view of the real front end under random layouts',
          'round-trip exploration'),
- 'C14': ('Coq theorems: the elimination loop computes exactly the dominators (paths in the predecessor graph) and recovery = union of dominator follow sets minus first/follow of the body, under certificates evaluated per grammar; K2 correspondence + brute-force dominators on an independent graph',
+ 'C14': ('Coq theorems: the elimination loop computes exactly the dominators (paths in the predecessor graph) for every graph, iteration order and fuel - the fixpoint property of the result is proved - and recovery = union of dominator follow sets minus first/follow of the body; K2 correspondence + brute-force dominators on an independent graph',
          'Rocq model + K2 correspondence, brute-force dominator oracle'),
  'C15': ('partial: cross-process determinism and behaviour under permuted declarations observed on the real binary and compiled parsers; one Coq theorem (dominator sets independent of the hash iteration order)',
          'differential runs of the real binary and generated parsers'),
